@@ -182,7 +182,7 @@ class MergerCheck(Check):
     def budget(self, tier):
         if tier == "quick":
             return {"runs": 24000, "chunk": 250, "wall": 150, "run_timeout": 90, "min_wall": 30, "isolate": False}
-        return {"runs": 1500000, "chunk": 2000, "wall": 1500, "run_timeout": 90, "min_wall": 120, "isolate": False}
+        return {"runs": 1200000, "chunk": 2000, "wall": 1500, "run_timeout": 90, "min_wall": 120, "isolate": False}
 
     def preload(self):
         global KB_NA
